@@ -38,6 +38,14 @@ MEANING = {1: "jump network contains a zero jump", 2: "states list has duplicate
            6: "stateindex/starindex lookups inconsistent"}
 
 
+WMAX = 6e7       # weight of one coqc call (calibrated: see design_notes/C24.md, < ~40 s on an idle machine)
+
+
+def wgen(n, J, g):
+    """estimated work of run_starset on n states, J jumps, g operations (list model: quadratic in n)"""
+    return 0.5 * n * n * J + n * g * g + n * n
+
+
 def ckey(cut):
     return round(cut, 5) if isinstance(cut, float) else str(cut)
 
@@ -239,7 +247,7 @@ def history_tier(ck, violation, label, crys, chem, jn, cut, jumps, ops, nsites, 
                         cid, nsites, hist[0][1], "true" if hist[0][2] else "false", "; ".join(coqh), cid, sc.c_pslist(sts),
                         sc.c_natlistlist(stars), sc.c_natlist(S.index),
                         "; ".join("(%s, %s, %s)" % (sc.c_ps(s_), sc.c_optnat(a), sc.c_optnat(b)) for s_, a, b in qs)))
-                    meta.append(("hist", step, MEANING))
+                    meta.append(("hist", step, MEANING, (len(coqh) + 2) * wgen(len(sts), len(jumps), len(ops))))
         except sc.GeometryError:
             continue
         except Exception as e:
@@ -260,13 +268,13 @@ def run(ck):
     ncrys = ck.n(17, 160)
     coq_budget_states = ck.n(80000, 900000)     # total number of states sent to the model
     max_case_states = ck.n(600, 1600)
-    defs, runs, meta = [], [], []
+    defs, runs, meta, wts = [], [], [], []
     spent = 0
     skipped = {"nonpercolating": 0, "construct-failed": 0, "geometry": 0, "coq-budget": 0}
     ncase = 0
     nhist = 0
     hstats = {"steps": 0, "same-range-flag-changes": 0}
-    substats = {"subnetworks": 0, "not-touching-every-site": 0}
+    substats = {"subnetworks": 0, "not-touching-every-site": 0, "lowsym": 0}
 
     def violation(key, msg, info, detail=None):
         d = dict(info); d.update(detail or {})
@@ -287,6 +295,19 @@ def run(ck):
         for label, crys, chem in fixed_sub:
             sh = gen.shells(crys, chem)
             yield label + ":shortest", crys, chem, sh[0] + 1e-4, crys.jumpnetwork(chem, sh[0] + 1e-4)
+        # low-symmetry multi-site crystals: completeness of the shell construction at N = 3 (a state that needs three jumps
+        # can be closer to the solute than every two-jump state it is reached from)
+        c_, chem_, cut_ = sc.lowsym_demo()
+        yield "lowsym-demo", c_, chem_, cut_, c_.jumpnetwork(chem_, cut_)
+        nlow = 0
+        for _ in range(ck.n(12, 90)):
+            if nlow >= ck.n(4, 30): break
+            r = sc.lowsym_crystal(rng, 3 if rng.random() < 0.8 else 2)
+            if r is None: continue
+            net = sc.lowsym_network(r[1], r[2], rng, maxjumps=ck.n(30, 40))
+            if net is None: continue
+            nlow += 1; substats["lowsym"] += 1
+            yield r[0], r[1], r[2], net[0], net[1]
         for label, crys, chem in itertools.chain(corpus, gen.pool(rng, ncrys, random_frac=0.55)):
             try:
                 net = gen.percolating_network(crys, chem, rng, maxjumps=ck.n(40, 60))
@@ -390,7 +411,7 @@ def run(ck):
                     runs.append("run_starset J%d %d%%nat %d%%nat %s G%d %s %s %s [%s]" % (
                         cid, nsites, N, "true" if origin else "false", cid, sc.c_pslist(sts), sc.c_natlistlist(stars),
                         sc.c_natlist(S.index), "; ".join("(%s, %s, %s)" % (sc.c_ps(s), sc.c_optnat(a), sc.c_optnat(b)) for s, a, b in qs)))
-                    meta.append(("gen", info, MEANING))
+                    meta.append(("gen", info, MEANING, wgen(len(sts), len(jumps), len(ops))))
                 elif N >= 1:
                     skipped["coq-budget"] += 1
         # sums
@@ -438,7 +459,7 @@ def run(ck):
                     runs.append("run_add J%d %d%%nat %d%%nat %d%%nat %s %s %s" % (
                         cid, nsites, bN, oN, "true" if bo else "false", "true" if oo else "false", sc.c_pslist(sts)))
                     meta.append(("add", info, {1: "sum's states differ from the model of __iadd__", 2: "model sum differs from generate(N1+N2)",
-                                               3: "sum's state list has duplicates"}))
+                                               3: "sum's state list has duplicates"}, 3 * wgen(len(sts), len(jumps), len(ops)) + float(len(beforeA)) * len(beforeB) * len(sts)))
                 else:
                     skipped["coq-budget"] += 1
         # difference sets
@@ -471,20 +492,25 @@ def run(ck):
                 spent += len(sts)
                 runs.append("run_diff J%d %d%%nat %d%%nat %d%%nat %s %s %s" % (
                     cid, nsites, N1, N2, "true" if o1 else "false", "true" if o2 else "false", sc.c_pslist(sts)))
-                meta.append(("diff", info, {1: "difference set differs from the model", 3: "difference set has duplicates"}))
+                meta.append(("diff", info, {1: "difference set differs from the model", 3: "difference set has duplicates"},
+                             wgen(len(sa), len(jumps), 1) + wgen(len(sb), len(jumps), 1) + 0.5 * len(sa) * len(sb) * len(sts)))
                 # and its stars through the verified star checker
                 runs.append("run_stars G%d %s %s %s" % (cid, sc.c_pslist(sts), sc.c_natlistlist(stars), sc.c_natlist(D.index)))
-                meta.append(("diffstars", info, MEANING))
+                meta.append(("diffstars", info, MEANING, wgen(len(sts), 0, len(ops))))
             else:
                 skipped["coq-budget"] += 1
 
     # ---- the model / verified checkers judge the implementation's output ---------------------------
     codes = []
     try:
-        codes = sc.run_chunks(ck, "stars", "".join(defs), runs, sc.STARS_IMPORTS, chunk=60)
+        heavy = [k for k, m in enumerate(meta) if m[3] > 3 * WMAX]      # a single case must stay far below the coqc timeout
+        if heavy:
+            skipped["coq-budget"] += len(heavy)
+            runs = [r for k, r in enumerate(runs) if k not in set(heavy)]; meta = [m for k, m in enumerate(meta) if k not in set(heavy)]
+        codes = sc.run_chunks(ck, "stars", defs, runs, sc.STARS_IMPORTS, chunk=40, workers=6, weights=[m[3] for m in meta], wmax=WMAX)
     except CoqFailure as e:
         ck.broken_proof = "correspondence Model/Stars.run_starset: %s" % e
-    for (kind, info, meaning), c in zip(meta, codes):
+    for (kind, info, meaning, w_), c in zip(meta, codes):
         if c != 0:
             ck.violation("model correspondence (%s): %s" % (kind, meaning.get(c, c)), dict(info, model_code=c),
                          key="c24-model-%s-%d" % (kind, c))
